@@ -216,6 +216,7 @@ def name_cases(ctx, n):
     yield "to_text", [4, n]
     yield "rt_text", [30, n]
     yield "rt_tok", [31, n]
+    yield "constructors", [34, n]
     if is_abs(n):
         yield "rt_wire", [32, n, rand_octets(rng, rng.choice([0, 0, 1, 12, 40])), rand_octets(rng, rng.choice([0, 0, 1, 7]))]
     rel = [l for l in n if l]
@@ -799,7 +800,9 @@ def cases(ctx):
               [b"a"] * 127 + [b""], [b"a"] * 127, [b" "], [b"a b", b""], [b'"'], [b"$"], [b"("], [b";", b""]):
         yield from name_cases(ctx, n)
     for _ in range(ctx.n(120, 2500)):
-        yield "construct_bad", [1, gen_invalid(ctx)]
+        bad = gen_invalid(ctx)
+        yield "construct_bad", [1, bad]
+        yield "constructors_bad", [34, bad]
     for _ in range(ctx.n(70, 1000)):
         yield from succ_cases(ctx)
 
@@ -840,6 +843,27 @@ def impl(case):
             t = n.to_text()
             tb = t.encode("latin-1")
             return [tb, _labels_or_err(lambda: dns.name.from_text(t, None)), _labels_or_err(lambda: dns.name.from_text(tb, None))]
+        if op == 34:
+            # the other constructors: unpickling (__setstate__), copy, deepcopy, canonicalize, str labels
+            import copy
+            import pickle
+
+            ls = [bytes(l) for l in case[1]]
+
+            def setstate():
+                m = dns.name.Name.__new__(dns.name.Name)
+                m.__setstate__({"labels": tuple(ls)})
+                return m
+
+            def via_pickle():
+                return pickle.loads(pickle.dumps(nl.N(ls)))
+
+            def via_str():
+                return dns.name.Name([l.decode("ascii") for l in ls]) if all(max(l, default=0) < 128 for l in ls) else nl.N(ls)
+
+            return [_labels_or_err(setstate), _labels_or_err(via_pickle), _labels_or_err(lambda: copy.copy(nl.N(ls))),
+                    _labels_or_err(lambda: copy.deepcopy(nl.N(ls))), _labels_or_err(lambda: nl.N(ls).canonicalize()),
+                    _labels_or_err(via_str)]
         if op == 31:
             n = nl.N(case[1])
             tok = dns.tokenizer.Tokenizer(n.to_text() + "\n")
@@ -949,6 +973,8 @@ def oracle(ctx, kind, case, out):
         produced = [x for x in out[1:] if not isinstance(x, Err)]
     elif op == 31:
         produced = [out]
+    elif op == 34:
+        produced = [x for x in out if not isinstance(x, Err)]
     elif op == 32:
         produced = [out[0]]
     elif op == 7:
@@ -979,6 +1005,21 @@ def oracle(ctx, kind, case, out):
                 fail("from_text(to_text(n)) != n (%s input)" % how)
         if back_s != back_b:
             fail("from_text disagrees between str and bytes input")
+    elif op == 34:
+        ls = case[1]
+        names = ["__setstate__", "pickle", "copy", "deepcopy", "canonicalize", "str labels"]
+        for nm, x in zip(names, out):
+            if nl.fits(ls):
+                want = [lower(l) for l in ls] if nm == "canonicalize" else ls
+                if isinstance(x, Err):
+                    fail("legal label sequence rejected by " + nm + ": " + x.text)
+                elif x != want:
+                    fail(nm + " changed the labels")
+            else:
+                if not isinstance(x, Err):
+                    fail("illegal label sequence accepted by " + nm)
+                elif bad_exc(op, x) or x.code not in (1, 2, 3):
+                    fail("wrong exception from " + nm + ": " + x.text)
     elif op == 31:
         if out != case[1]:
             fail("Tokenizer.get_name(to_text(n)) != n")
